@@ -63,6 +63,8 @@ type c03H3Scenario struct {
 	code     uint64 // stream reset / connection close error code
 	status   int    // response status (0 = 200)
 	head     bool   // the client sends HEAD
+	interim  int    // informational (103/100/102) HEADERS frames in front of the final response
+	late     bool   // the surplus bytes go out later, after the client drained the declared body
 }
 
 type c03H3Peer struct {
@@ -174,9 +176,19 @@ func (p *c03H3Peer) serveStream(conn quic.Connection, str quic.Stream) {
 	if sc.declared >= 0 {
 		enc.WriteField(qpack.HeaderField{Name: "content-length", Value: strconv.Itoa(sc.declared)})
 	}
-	out := c03H3Frame(0x1, hb.Bytes())
+	var out []byte
+	for j := 0; j < sc.interim; j++ {
+		var ib bytes.Buffer
+		ienc := qpack.NewEncoder(&ib)
+		ienc.WriteField(qpack.HeaderField{Name: ":status", Value: []string{"103", "100", "102"}[j%3]})
+		ienc.WriteField(qpack.HeaderField{Name: "link", Value: "</s.css>; rel=preload"})
+		out = append(out, c03H3Frame(0x1, ib.Bytes())...)
+	}
+	out = append(out, c03H3Frame(0x1, hb.Bytes())...)
 	payload := []byte(sc.body)[:sc.send]
-	payload = append(payload, bytes.Repeat([]byte("X"), sc.extra)...)
+	if !sc.late {
+		payload = append(payload, bytes.Repeat([]byte("X"), sc.extra)...)
+	}
 	n := sc.frames
 	if n < 1 {
 		n = 1
@@ -200,6 +212,10 @@ func (p *c03H3Peer) serveStream(conn quic.Connection, str quic.Stream) {
 		payload = payload[k:]
 	}
 	str.Write(out)
+	if sc.late {
+		time.Sleep(40 * time.Millisecond)
+		str.Write(c03H3Frame(0x0, bytes.Repeat([]byte("X"), sc.extra)))
+	}
 	switch sc.ending {
 	case "fin", "midframe-fin":
 		str.Close()
@@ -234,7 +250,8 @@ func TestVerif_C03_h3cut(t *testing.T) {
 	reached := map[string]int{}
 	knownSeen := map[string]int{}
 	failures := 0
-	rstSeq := 0
+	rstSeq, overSeq := 0, 0
+	perName := map[string]int{}
 	tmpDir := t.TempDir()
 	for i := 0; i < n && failures < 12; i++ {
 		body := verifh.RandBytes(r, 1+r.Intn(300), "abcdefghijklmnopqrstuvwxyz")
@@ -285,10 +302,27 @@ func TestVerif_C03_h3cut(t *testing.T) {
 			}
 		case 9:
 			sc.name, sc.declared, sc.extra, sc.complete = "overlong", len(body), 1+r.Intn(20), false
+			switch overSeq % 4 {
+			case 1:
+				sc.name, sc.late = "overlong-late-frame", true
+			case 2:
+				body = verifh.RandBytes(r, verifh.Pick(r, []int{512, 512, 1024}), "abcdefghijklmnopqrstuvwxyz")
+				sc.name, sc.body, sc.declared, sc.send, sc.frames = "overlong-at-read-buffer", body, len(body), len(body), 1
+			case 3:
+				sc.name, sc.declared, sc.send, sc.late = "overlong-zero-length", 0, 0, r.Intn(2) == 0
+			}
+			overSeq++
 		case 10:
 			sc.name, sc.ending, sc.complete, sc.code = "close-before-headers", "close-before-headers", false, []uint64{0x100, 0x10b, 0x10c}[rstSeq%3]
 		case 11: // full body, but the stream is reset (also with H3_NO_ERROR) instead of finished
 			sc.name, sc.ending, sc.complete, sc.code = "reset-after-full-body", "reset", false, []uint64{0x100, 0x102}[rstSeq%2]
+		}
+		// a multi-step sequence on the request stream: informational responses, then the final one
+		perName[sc.name]++
+		if perName[sc.name]%3 == 1 { // deterministic: every scenario kind gets its share
+			sc.interim = 1 + r.Intn(3)
+			s.Count("interim-1xx")
+			reached["interim-1xx:"+sc.name]++
 		}
 		peer.mu.Lock()
 		peer.queue = []c03H3Scenario{sc}
@@ -396,7 +430,7 @@ func TestVerif_C03_h3cut(t *testing.T) {
 	if failures >= 12 {
 		return
 	}
-	for _, need := range []string{"ok", "fail", "complete", "complete-head-with-length", "complete-304-with-length", "short-fin", "reset-code-100", "reset-code-10b", "reset-code-10c", "conn-close-code-100", "conn-close-code-102", "midframe-fin", "overlong", "close-before-headers", "reset-after-full-body"} {
+	for _, need := range []string{"ok", "fail", "complete", "complete-head-with-length", "complete-304-with-length", "short-fin", "reset-code-100", "reset-code-10b", "reset-code-10c", "conn-close-code-100", "conn-close-code-102", "midframe-fin", "overlong", "overlong-late-frame", "overlong-at-read-buffer", "overlong-zero-length", "interim-1xx:short-fin", "interim-1xx:overlong", "interim-1xx:complete", "close-before-headers", "reset-after-full-body"} {
 		if reached[need] == 0 {
 			t.Errorf("C03/h3cut never reached %q", need)
 		}
